@@ -715,7 +715,12 @@ func observeMgr(e *mgrEnv, w *watch) items {
 			}
 			it["used_flag:"+wa.label] = fmt.Sprint(ma.Used(ns))
 		}
-		// the private passphrase the running manager accepts
+		// the private passphrase the running manager accepts (asked only at
+		// states where some probed call changes it: every Lock/Unlock costs a
+		// key derivation and a forced garbage collection inside snacl)
+		if len(w.priv) < 2 {
+			return nil
+		}
 		if err := m.Lock(); err != nil {
 			it["passphrase"] = "lock: " + errClass(err)
 			return nil
@@ -814,13 +819,6 @@ func buildWatch(f *gfacts, res *resolver, probes [][]mop) (*watch, error) {
 		add("impscript", path4{impScope, -1, 1, i})
 	}
 	w.priv = []int{f.priv}
-	for _, ops := range probes {
-		for _, o := range ops {
-			if o.K == "chpass" && o.Priv {
-				w.priv = append(w.priv, o.New)
-			}
-		}
-	}
 	return w, nil
 }
 
@@ -865,7 +863,7 @@ func runMgrCase(in input) (*caseOut, error) {
 	}
 	defer oracle.close()
 	res := &resolver{env: oracle, cache: map[path4]btcutil.Address{}}
-	w, err := buildWatch(facts, res, in.MgrOps)
+	w0, err := buildWatch(facts, res, in.MgrOps)
 	if err != nil {
 		return nil, err
 	}
@@ -876,12 +874,21 @@ func runMgrCase(in input) (*caseOut, error) {
 		for i, o := range ops {
 			names[i] = mopName(o)
 		}
+		// the accepted private passphrase is asked only when this probe
+		// changes it
+		w := *w0
+		for _, o := range ops {
+			if o.K == "chpass" && o.Priv {
+				w.priv = append([]int{facts.priv}, o.New)
+			}
+		}
+		w1 := &w
 		// clean run
 		ce, err := openMgrCopy(dir, snapshot, facts.pub, facts.priv)
 		if err != nil {
 			return nil, err
 		}
-		pre := observeMgr(ce, w)
+		pre := observeMgr(ce, w1)
 		preDump, err := faultdb.Dump(ce.raw)
 		if err != nil {
 			return nil, err
@@ -900,7 +907,7 @@ func runMgrCase(in input) (*caseOut, error) {
 		if cerr != nil {
 			p.Clean = "err"
 		}
-		cleanPost := observeMgr(ce, w)
+		cleanPost := observeMgr(ce, w1)
 		ce.close()
 
 		for k := 1; k <= p.N; k++ {
@@ -912,7 +919,7 @@ func runMgrCase(in input) (*caseOut, error) {
 				return nil, err
 			}
 			ko := kOut{K: k}
-			if d := pre.diff(observeMgr(ke, w)); len(d) > 0 {
+			if d := pre.diff(observeMgr(ke, w1)); len(d) > 0 {
 				ke.close()
 				return nil, fmt.Errorf("harness: a fresh manager on a copy of the same file answers differently: %v", d)
 			}
@@ -920,13 +927,8 @@ func runMgrCase(in input) (*caseOut, error) {
 			kres, kerr, firedAt, _ := ke.runTx(ops, res)
 			ke.fdb.FailAt = 0
 			ko.Fired, ko.Err, ko.Text = ke.fdb.Fired, kerr != nil, kres+"|"+errClass(kerr)
-			if ke.fdb.Fired {
-				ko.Callee = ke.fdb.Calls[len(ke.fdb.Calls)-1].Callee
-				for _, c := range ke.fdb.Calls {
-					if c.Failed {
-						ko.Callee = c.Callee
-					}
-				}
+			if fc := ke.fdb.FailedCall(); fc != nil {
+				ko.Callee = fc.Callee
 			}
 			// site: the calls completed before the failing one (their memory
 			// effects are what can survive), else the failing call itself
@@ -944,7 +946,7 @@ func runMgrCase(in input) (*caseOut, error) {
 				ko.Kinds = append(ko.Kinds, "write_count_not_reproducible@"+p.Name)
 			case kerr == nil:
 				ko.Kinds = append(ko.Kinds, "success_with_failed_write@"+failing+"/"+ko.Callee)
-				if d := cleanPost.diff(observeMgr(ke, w)); len(d) > 0 {
+				if d := cleanPost.diff(observeMgr(ke, w1)); len(d) > 0 {
 					ko.Detail = append(ko.Detail, fmt.Sprintf("committed effect differs from the clean run in: %v", d))
 				}
 			default:
@@ -956,7 +958,7 @@ func runMgrCase(in input) (*caseOut, error) {
 					ko.Kinds = append(ko.Kinds, "database_changed_after_rollback@"+p.Name)
 					ko.Detail = append(ko.Detail, d...)
 				}
-				after := observeMgr(ke, w)
+				after := observeMgr(ke, w1)
 				for _, it := range pre.diff(after) {
 					if _, ok := pre[it]; !ok && category(it) == "used_flag" {
 						continue // a flag of an address that was not known before: reported as address_lookup
@@ -966,12 +968,12 @@ func runMgrCase(in input) (*caseOut, error) {
 				}
 				rres, rerr, _, _ := ke.runTx(ops, res)
 				if r := rres + "|" + errClass(rerr); r != p.Result {
-					ko.Kinds = append(ko.Kinds, "retry_differs@"+p.Name)
+					ko.Kinds = append(ko.Kinds, "retry_differs@"+site)
 					ko.Detail = append(ko.Detail, fmt.Sprintf("retry result %q, clean result %q", r, p.Result))
 				} else {
-					post := observeMgr(ke, w)
+					post := observeMgr(ke, w1)
 					if d := cleanPost.diff(post); len(d) > 0 {
-						ko.Kinds = append(ko.Kinds, "retry_differs@"+p.Name)
+						ko.Kinds = append(ko.Kinds, "retry_differs@"+site)
 						for _, it := range d {
 							ko.Detail = append(ko.Detail, fmt.Sprintf("after retry: %s: %q, clean run: %q", it, post[it], cleanPost[it]))
 						}
@@ -1275,7 +1277,7 @@ func genMgrProbes(r *gen.R, f *gfacts, hashSeq, passSeq, nameSeq *int) [][]mop {
 	}
 	// several calls in one database transaction: the first one completes,
 	// a write of a later one fails
-	for _, first := range []mop{rename, synced, extend, next1, impk, imps, chpriv, birthday, newacct} {
+	for _, first := range []mop{rename, synced, extend, next1, impk, imps, chpriv, chpub, birthday, newacct} {
 		out = append(out, []mop{first, tail()})
 	}
 	if newscope != nil {
